@@ -418,7 +418,7 @@ fn self_simple_print(tag: &str) -> String {
 
 /// A terminating program of the well-defined fragment. `size` ≈ number of top-level blocks.
 pub fn gen_program(rng: &mut Rng, size: usize) -> Prog {
-    let start = *rng.pick(&[10u32, 10, 100, 5, 1000]);
+    let start = *rng.pick(&[10u32, 10, 100, 5, 1000, 0, 0]);
     let step = *rng.pick(&[10u32, 10, 5, 1, 20]);
     let mut g = PG {
         rng,
@@ -449,6 +449,12 @@ pub fn gen_program(rng: &mut Rng, size: usize) -> Prog {
         if g.rng.chance(1, 2) {
             g.emit("DEF FNB(X,Y)=FNA(X)-Y+A".into());
             g.fns.push(("FNB".into(), 2));
+        }
+        if g.rng.chance(1, 3) {
+            // typed parameters that share their names with program variables
+            g.emit("DEF FNC(X#,N%)=X#+N%*2+X".into());
+            g.fns.push(("FNC".into(), 2));
+            g.emit("X#=40:X=2".into());
         }
     }
     let data_early = g.rng.chance(1, 2);
